@@ -39,14 +39,14 @@ Proof.
     destruct (isr && negb prim); now apply IH.
 Qed.
 
-(* an RTX entry that survives had, at its turn, a payload type matching its apt
-   among the entries not yet visited, itself, or the ones already kept *)
+(* an RTX entry that survives had, at its turn, a non-RTX entry with the payload
+   type its apt names among the entries not yet visited or the ones already kept *)
 Lemma filter_go_rtx : forall rp suf c,
   In c (filter_rtx_go rp suf) ->
   In c suf \/
   (In c rp /\ (is_rtx c = true ->
      exists a p, apt_of c = Some a /\ parse_atoi_pt a = Some p /\
-       exists q, (In q rp \/ In q suf) /\ c_pt q = p)).
+       exists q, (In q rp \/ In q suf) /\ c_pt q = p /\ is_rtx q = false)).
 Proof.
   induction rp as [|d rp IH]; intros suf c H; [left; exact H|].
   cbn [filter_rtx_go] in H.
@@ -64,12 +64,14 @@ Proof.
       destruct (parse_atoi_pt a) as [p|] eqn:Hp; [|inversion Hrp; subst; discriminate].
       inversion Hrp; subst isr prim. cbn in Hrm. apply negb_false_iff in Hrm.
       apply existsb_exists in Hrm. destruct Hrm as [q [Hq Hpt]].
+      unfold primary_pt in Hpt. apply andb_true_iff in Hpt. destruct Hpt as [Hpt Hplain].
+      apply negb_true_iff in Hplain.
       exists a, p. split; [reflexivity|]. split; [exact Hp|]. exists q. split.
       * apply in_app_or in Hq. destruct Hq as [Hq|[Hq|Hq]].
         -- left. right. now apply in_rev.
-        -- left. left. assumption.
+        -- subst q. congruence.
         -- now right.
-      * unfold pt_is in Hpt. now apply N.eqb_eq.
+      * split; [unfold pt_is in Hpt; now apply N.eqb_eq|exact Hplain].
     + now left.
     + right. split; [now right|]. intros Hr.
       destruct (H2 Hr) as [a [p [Ha [Hp [q [Hq Hpt]]]]]].
@@ -90,41 +92,26 @@ Proof.
   now apply -> in_rev.
 Qed.
 
-(* the guard: no RTX entry's apt names the payload type of another RTX entry *)
-Definition no_rtx_chain (l : list codec) : Prop :=
-  forall c a p q, In c l -> is_rtx c = true -> apt_of c = Some a -> parse_atoi_pt a = Some p ->
-                  In q l -> c_pt q = p -> is_rtx q = false \/ q = c.
-
+(* after the filter every RTX entry's apt names the payload type of a kept
+   entry that is not itself an RTX entry: for all lists *)
 Lemma filter_rtx_apt_listed : forall l c,
-  no_rtx_chain l ->
   In c (filter_unattached_rtx l) -> is_rtx c = true ->
-  exists a p, apt_of c = Some a /\ parse_atoi_pt a = Some p /\ has_pt p (filter_unattached_rtx l).
+  exists a p q, apt_of c = Some a /\ parse_atoi_pt a = Some p /\
+    In q (filter_unattached_rtx l) /\ c_pt q = p /\ is_rtx q = false.
 Proof.
-  intros l c Hg Hc Hr. pose proof Hc as Hc0.
-  unfold filter_unattached_rtx in Hc. apply filter_go_rtx in Hc.
-  destruct Hc as [[]|[Hin H]]. destruct (H Hr) as [a [p [Ha [Hp [q [Hq Hpt]]]]]].
-  exists a, p. split; [assumption|]. split; [assumption|].
+  intros l c Hc Hr. unfold filter_unattached_rtx in Hc. apply filter_go_rtx in Hc.
+  destruct Hc as [[]|[Hin H]]. destruct (H Hr) as [a [p [Ha [Hp [q [Hq [Hpt Hplain]]]]]]].
+  exists a, p, q. split; [assumption|]. split; [assumption|].
   assert (Hql : In q l) by (destruct Hq as [Hq|[]]; now apply in_rev).
-  assert (Hcl : In c l) by (now apply in_rev).
-  destruct (Hg c a p q Hcl Hr Ha Hp Hql Hpt) as [Hplain| ->].
-  - exists q. split; [now apply filter_rtx_keeps_plain|assumption].
-  - exists c. split; assumption.
+  split; [now apply filter_rtx_keeps_plain|]. auto.
 Qed.
 
-(* the full statement fails: an RTX naming an RTX that has no primary *)
+(* the list that used to keep an RTX whose target was removed *)
 Definition chain_witness : list codec :=
   [ mkCodec "video/rtx" 90000 0 "apt=99" [] 97; mkCodec "video/rtx" 90000 0 "apt=97" [] 98 ].
 
-Lemma filter_rtx_apt_refuted :
-  exists l c, In c (filter_unattached_rtx l) /\ is_rtx c = true /\
-    forall a p, apt_of c = Some a -> parse_atoi_pt a = Some p -> ~ has_pt p (filter_unattached_rtx l).
-Proof.
-  exists chain_witness, (mkCodec "video/rtx" 90000 0 "apt=97" [] 98).
-  split; [vm_compute; now left|]. split; [reflexivity|].
-  intros a p Ha Hp [q [Hq Hq2]].
-  vm_compute in Ha. injection Ha as Ha'. rewrite <- Ha' in Hp. vm_compute in Hp. injection Hp as Hp'.
-  vm_compute in Hq. destruct Hq as [Hq|[]]. rewrite <- Hq, <- Hp' in Hq2. vm_compute in Hq2. discriminate.
-Qed.
+Lemma chain_witness_filtered : filter_unattached_rtx chain_witness = [].
+Proof. vm_compute. reflexivity. Qed.
 
 (* ---------- payload types listed once ---------- *)
 
@@ -437,12 +424,13 @@ Lemma w_dup_pt_fails : exists l, w_dup_pt = Ok l /\ forallb section_ok l = false
   existsb (fun s => negb (nodup_N (sec_formats s))) l = true.
 Proof. eexists. vm_compute. repeat split. Qed.
 
-(* an RTX whose apt names an RTX without primary, in a first offer *)
+(* an RTX whose apt names an RTX without primary, in a first offer: both are
+   dropped now (this used to keep the second one) *)
 Definition w_chain :=
   sections_of (new_engine (w_vp8 :: chain_witness) [] true) x_empty
               [(mkTrans KVideo [] false true, None)].
-Lemma w_chain_fails : exists l, w_chain = Ok l /\ forallb section_ok l = false /\
-  existsb (fun s => negb (rtx_apts_listed (l_codecs s))) l = true.
+Lemma w_chain_ok : exists l, w_chain = Ok l /\ forallb section_ok l = true /\
+  map sec_formats l = [[96%N]].
 Proof. eexists. vm_compute. repeat split. Qed.
 
 (* and sections that satisfy everything exist, so section_ok is not vacuous *)
